@@ -551,6 +551,30 @@ func run(fr *frame) value {
 				switch x.Op {
 				case token.MUL:
 					fr.set(x, deref(a))
+				case token.ARROW:
+					ch, ok := a.(*chanVal)
+					if !ok || ch == nil {
+						panic(unsupported{"receive on a nil or unmodelled channel"})
+					}
+					if len(ch.buf) == 0 {
+						runPendingGoroutines()
+					}
+					et := x.X.Type().Underlying().(*types.Chan).Elem()
+					var v value
+					got := false
+					if len(ch.buf) > 0 {
+						v, got = ch.buf[0], true
+						ch.buf = ch.buf[1:]
+					} else if ch.closed {
+						v = zero(et)
+					} else {
+						panic(unsupported{"receive that blocks forever in the sequentialised schedule"})
+					}
+					if x.CommaOk {
+						fr.set(x, tuple{v, got})
+					} else {
+						fr.set(x, v)
+					}
 				case token.NOT:
 					fr.set(x, notVal(a))
 				case token.SUB:
@@ -631,6 +655,39 @@ func run(fr *frame) value {
 				fr.set(x, doRange(fr.get(x.X)))
 			case *ssa.Next:
 				fr.set(x, doNext(x, fr.get(x.Iter)))
+			case *ssa.Go:
+				g := pendingGo{}
+				for _, a := range x.Call.Args {
+					g.args = append(g.args, fr.get(a))
+				}
+				if x.Call.IsInvoke() {
+					panic(unsupported{"go statement on an interface method"})
+				}
+				switch f := x.Call.Value.(type) {
+				case *ssa.Function:
+					g.fn = &closure{fn: f}
+				default:
+					cl, ok := fr.get(x.Call.Value).(*closure)
+					if !ok || cl == nil {
+						panic(unsupported{"go statement on " + describe(fr.get(x.Call.Value))})
+					}
+					g.fn = cl
+				}
+				goQueue = append(goQueue, g)
+				goSpawned++
+			case *ssa.MakeChan:
+				fr.set(x, &chanVal{})
+			case *ssa.Send:
+				ch, ok := fr.get(x.Chan).(*chanVal)
+				if !ok || ch == nil {
+					panic(unsupported{"send on a nil or unmodelled channel"})
+				}
+				if ch.closed {
+					panic(rtp("send on closed channel"))
+				}
+				ch.buf = append(ch.buf, copyVal(fr.get(x.X)))
+			case *ssa.Select:
+				panic(unsupported{"select statement"})
 			case *ssa.Defer:
 				// deferred calls are collected and run at RunDefers
 				fr.defer_(x, fr)
@@ -667,6 +724,30 @@ func run(fr *frame) value {
 				panic(unsupported{fmt.Sprintf("instruction %T in %s", in, fr.fn)})
 			}
 		}
+	}
+}
+
+// Goroutines are sequentialised: a spawned goroutine is queued and all queued goroutines run
+// to completion, in spawn order, at the first blocking operation (channel receive on an
+// empty channel, WaitGroup.Wait) - one of the schedules the program admits; data races are
+// the native race-detector run's subject (C13), not this model's.
+type pendingGo struct {
+	fn   *closure
+	args []value
+}
+type chanVal struct {
+	buf    []value
+	closed bool
+}
+
+var goQueue []pendingGo
+var goSpawned int
+
+func runPendingGoroutines() {
+	for len(goQueue) > 0 {
+		g := goQueue[0]
+		goQueue = goQueue[1:]
+		call(g.fn.fn, g.args, g.fn.env)
 	}
 }
 
@@ -1306,6 +1387,16 @@ func doBuiltin(fr *frame, f *ssa.Builtin, c *ssa.CallCommon, args []value) value
 				break
 			}
 		}
+		return nil
+	case "close":
+		ch, ok := args[0].(*chanVal)
+		if !ok || ch == nil {
+			panic(rtp("close of nil channel"))
+		}
+		if ch.closed {
+			panic(rtp("close of closed channel"))
+		}
+		ch.closed = true
 		return nil
 	case "print", "println":
 		rs.outputs = append(rs.outputs, "builtin "+f.Name())
